@@ -1351,6 +1351,21 @@ func (s *Server) bind(mcpConn Connection, conn *jsonrpc2.Connection, state *Serv
 	return ss
 }
 
+// A versionedBinder binds sessions that know which protocol versions their
+// transport can serve from the moment they start reading.
+type versionedBinder struct {
+	*Server
+	versions []string
+}
+
+func (b versionedBinder) bind(mcpConn Connection, conn *jsonrpc2.Connection, state *ServerSessionState, onClose func()) *ServerSession {
+	ss := b.Server.bind(mcpConn, conn, state, onClose)
+	ss.mu.Lock()
+	ss.supportedVersions = b.versions
+	ss.mu.Unlock()
+	return ss
+}
+
 // disconnect implements the binder[*ServerSession] interface, so that
 // Servers can be connected using [connect].
 func (s *Server) disconnect(cc *ServerSession) {
@@ -1394,26 +1409,21 @@ func (s *Server) Connect(ctx context.Context, t Transport, opts *ServerSessionOp
 	}
 
 	s.opts.Logger.Info("server connecting")
-	ss, err := connect(ctx, t, s, state, onClose, s.opts.Logger)
-	if err != nil {
-		s.opts.Logger.Error("server connect error", "error", err)
-		return nil, err
-	}
-
 	// Compute the protocol versions this session can serve, filtered by the
 	// transport's capabilities (if it implements [ProtocolVersionSupporter]).
 	// The list is consumed by the SEP-2575 server/discover handler.
 	//
-	// The write is guarded by ss.mu to establish a happens-before edge with
-	// the matching read in Server.discover, which runs on the jsonrpc2 read
-	// goroutine spawned inside connect(). The two are not concurrent in
-	// wall-clock terms (no incoming message is dispatched until the caller
-	// has fed the transport, which happens after Server.Connect returns),
-	// but without the lock the Go memory model gives the read goroutine no
-	// guarantee of seeing this write, and -race flags it.
-	ss.mu.Lock()
-	ss.supportedVersions = filterSupportedVersions(t)
-	ss.mu.Unlock()
+	// It is handed to the session when it is bound, before the jsonrpc2 read
+	// goroutine is started inside connect(): some transports let the peer send
+	// its first message as soon as they are connected (the SSE transport
+	// announces its message endpoint from Connect), so a server/discover
+	// request may be dispatched before connect() returns.
+	b := versionedBinder{Server: s, versions: filterSupportedVersions(t)}
+	ss, err := connect(ctx, t, b, state, onClose, s.opts.Logger)
+	if err != nil {
+		s.opts.Logger.Error("server connect error", "error", err)
+		return nil, err
+	}
 
 	// Start keepalive before returning the session to avoid race conditions with Close.
 	// This is safe because the spec allows sending pings before initialization (see ServerSession.handle for details).
